@@ -617,3 +617,102 @@ def glued_graph(rng, pieces=None):
         E += [(a, n), (n, b)]
         n += 1
     return n, E
+
+
+# ---------------------------------------------------------------------------------------------------------------
+# 3-connectivity of the matroid represented by [I | M] over GF(p): no partition of the elements (rows and columns) into
+# two parts with at least 2 elements each (1-separation: at least 1) whose connecting ranks sum to less than 2.
+# Exhaustive over all bipartitions; only for m + n <= 14.  Used only to decide where "components of a TU matrix are
+# TU" is a theorem (it is one for 3-connected matrices); a 0 withdraws that demand, it never adds one.
+
+_tc_cache = {}
+
+
+def three_connected(M, p):
+    m, n = len(M), len(M[0]) if M else 0
+    if m + n > 14 or m == 0 or n == 0:
+        return 0
+    key = (p, tuple(tuple(r) for r in M))
+    if key in _tc_cache:
+        return _tc_cache[key]
+    # cheap necessary conditions first: no zero, unit or parallel lines
+    lines = [tuple(r) for r in M] + [tuple(M[i][j] for i in range(m)) for j in range(n)]
+    res = 1
+    for v in lines:
+        if sum(1 for x in v if x) <= 1:
+            res = 0
+    if res:
+        for vs in (lines[:m], lines[m:]):
+            seen = set()
+            for v in vs:
+                w = tuple(-x for x in v)
+                if v in seen or (p == 3 and w in seen):
+                    res = 0
+                seen.add(v)
+    if res:
+        N = m + n
+        for mask in range(1, 1 << (N - 1)):
+            a = bin(mask).count("1")
+            if a < 2 or N - a < 2:
+                continue
+            rowpart = [(mask >> i) & 1 for i in range(m)]
+            colpart = [(mask >> (m + j)) & 1 for j in range(n)]
+            r1 = [i for i in range(m) if rowpart[i] == 0]
+            r2 = [i for i in range(m) if rowpart[i] == 1]
+            c1 = [j for j in range(n) if colpart[j] == 0]
+            c2 = [j for j in range(n) if colpart[j] == 1]
+            B = [[M[i][j] for j in c2] for i in r1]
+            C = [[M[i][j] for j in c1] for i in r2]
+            rk = (rank_gf(B, p) if B and B[0] else 0) + (rank_gf(C, p) if C and C[0] else 0)
+            if rk <= 1:
+                res = 0
+                break
+    _tc_cache[key] = res
+    return res
+
+
+# ---------- edge-list files (doc/file-formats.md "Edge List") ----------
+def edgelist_lines(rng, count, maxnodes=7, maxedges=12):
+    """cases for the `edgelist` api: well-formed edge-list files mixing labeled and unlabeled edges (row labels r/R/t/T/-,
+    column labels c/C/plain number), node names of several shapes (incl. names that are prefixes of each other and
+    numeric names), varying whitespace (spaces, tabs, leading/trailing blanks), with and without a final newline, and
+    optionally a blank line followed by further text (reading stops at the blank line)"""
+    out = []
+    namesets = [lambda k: "v%d" % k, lambda k: str(k + 1), lambda k: "n" * (k + 1), lambda k: chr(97 + k),
+                lambda k: ("a", "ab", "abc", "b", "ba", "A", "aB", "c1", "r1", "-")[k % 10]]
+    for i in range(count):
+        nn = 1 + rng.below(maxnodes)
+        ne = rng.below(maxedges + 1)
+        nm = namesets[rng.below(len(namesets))]
+        mode = rng.below(5)        # 0 all unlabeled, 1 all labeled, 2.. mixed
+        text = ""
+        nrow = ncol = 0
+        for e in range(ne):
+            u, v = nm(rng.below(nn)), nm(rng.below(nn))
+            lab = None
+            if mode == 1 or (mode >= 2 and rng.below(2)):
+                if rng.below(2):
+                    nrow += 1
+                    lab = rng.choice(["r", "R", "t", "T", "-"]) + str(nrow if rng.below(4) else rng.below(1000))
+                else:
+                    ncol += 1
+                    lab = rng.choice(["c", "C", ""]) + str(ncol if rng.below(4) else rng.below(1000))
+            ws = lambda: rng.choice([" ", " ", "\t", "  ", " \t "])
+            lead = rng.choice(["", "", "", " ", "\t"])
+            line = lead + u + ws() + v
+            if lab is not None:
+                line += ws() + lab
+            line += rng.choice(["", "", "", " ", "\t", "  "])
+            text += line + "\n"
+        k = rng.below(8)
+        if k == 0 and text:
+            text = text[:-1]                       # no final newline
+        elif k == 1:
+            text += rng.choice(["\n", "  \n", "lonely\n"]) + "x y c9\n"     # reading stops before the further text
+        b = [ord(c) for c in text]
+        out.append("%d %d %s" % (rng.below(2), len(b), " ".join(map(str, b))))
+    return out
+
+
+EDGELIST_CODES = {1: "malformed record", 310: "edge-list reader failed", 311: "number of nodes differs from the text",
+                  312: "edges (end nodes / order / row-column labels) differ from the text", 313: "node labels differ from the text"}
